@@ -78,6 +78,10 @@ EXPLANATION += (
     ' Round 7: run settings are never replaced on a condition inside the pipeline (R-FWD/setting-not-rebound).'
 )
 
+EXPLANATION += (
+    ' Round 8: query columns are selected by a name-derived fancy index (R-ROLE/columns-by-name, rule of C07).'
+)
+
 RULE_TEXT = (
     "one obligation per draw, per block, per indexed comprehension, per "
     "provenance relation, per kernel function x configuration (type and "
